@@ -63,7 +63,7 @@ PROPS["C05"] = {
             "exact chunk oracle with bufio sizes 16..1 MiB and pipe capacities 4 KiB..1 MiB, incl. announced sizes the source does not cover "
             "(abort expected); psyncraw/reply/wait: malformed, odd and incomplete reply lines and headers; iocopy: request size vs max and "
             "buffer length; handover: real utils.NewRDBLoader on a bufio.Reader over a well-formed RDB file (C01's generator) followed by command bytes, "
-            "delivered in 1..n-byte reads with a pause in front of the last 0..9 RDB bytes: bytes taken when the entry channel closes, and the rest. non-trivial = every case except command-less +CONTINUE and unfragmented/RDB-less oracle cases; distinct by case text",
+            "delivered in 1..n-byte reads with a pause in front of the last 0..9 RDB bytes: bytes taken when the entry channel closes, and the rest; dumpmain: the real CmdDump.Main over 2-5 fake sources (1-4 MB RDB each, own content) with source.rdb.parallel in {1,2,n,n+1,8}: every output file is its own source's RDB. non-trivial = every case except command-less +CONTINUE and unfragmented/RDB-less oracle cases; distinct by case text",
     "equal": _equal,
     "nontrivial": _nontrivial,
     "signature": _signature,
